@@ -1477,14 +1477,14 @@ impl Date {
             .and_then(JsObject::downcast_ref::<Date>)
             .ok_or_else(|| JsNativeError::typ().with_message("'this' is not a Date"))?;
 
-        // 3. Let t be ? ToNumber(time).
-        let t = args.get_or_undefined(0).to_number(context)?;
-
         // NOTE (nekevss): `downcast_ref` is used and then dropped for a short lived borrow.
         // ToNumber() may call userland code which can modify the underlying date
         // which will cause a panic. In order to avoid this, we drop the borrow,
         // here and only `downcast_mut` when date will be modified.
         drop(date);
+
+        // 3. Let t be ? ToNumber(time).
+        let t = args.get_or_undefined(0).to_number(context)?;
 
         // 4. Let v be TimeClip(t).
         let v = time_clip(t);
